@@ -9,7 +9,7 @@ import (
 	"verifharness/internal/rng"
 )
 
-var kinds = append(append([]string{}, gen.AllSECs()...), "IAT", "ADV", "MIX", "MIX", "BIG")
+var kinds = append(append([]string{}, gen.AllSECs()...), "IAT", "ADV", "MIX", "MIX", "BIG", "BIGADV")
 
 // GenFile builds the idx-th file of a run deterministically from seed: one file per
 // standard SEC code, IAT, ADV, two mixed files and one with large batches, round robin.
@@ -39,6 +39,35 @@ func GenFile(seed uint64, idx int, small bool) (f *ach.File, what string) {
 		return gen.FileOfSEC(r, "IAT", gen.Opts{IAT: true, Addenda: r.Bool(), MaxBatches: maxB, MaxEntries: maxE}), k
 	case "ADV":
 		return gen.ADVFile(r), k
+	case "BIGADV":
+		// an ADV file whose batch entry hashes add up to eleven digits (the file control holds the sum modulo 10^10):
+		// two batches of 52..90 advices for a receiving DFI near the top of the routing number range
+		f := gen.FileOfSEC(r, "ADV", gen.Opts{MinBatches: 2, MaxBatches: 2, MaxEntries: 2})
+		if small {
+			return f, k
+		}
+		for _, b := range f.Batches {
+			es := b.GetADVEntries()
+			n := 52 + r.Intn(39)
+			for i := len(es); i < n; i++ {
+				c := *es[i%len(es)]
+				c.Addenda99 = nil
+				c.Category = ach.CategoryForward
+				c.AddendaRecordIndicator = 0
+				c.Amount = 1 + r.Intn(99999)
+				b.AddADVEntry(&c)
+			}
+			for _, e := range b.GetADVEntries() {
+				e.SetRDFI("987654320")
+			}
+			if err := b.Create(); err != nil {
+				return nil, k + ": " + err.Error()
+			}
+		}
+		if err := f.Create(); err != nil {
+			return nil, k + ": " + err.Error()
+		}
+		return f, k
 	default:
 		return gen.FileOfSEC(r, k, gen.Opts{Addenda: r.Bool(), Returns: r.Chance(1, 4), MaxBatches: maxB, MaxEntries: maxE}), k
 	}
